@@ -66,13 +66,14 @@ def _mass(rng, n, kind):
         return scipy.sparse.csr_matrix(M), M
     return M, M
 
-def _problem(rng, n, kind, sparse_jac=False):
+def _problem(rng, n, kind, sparse_jac=False, scale=1.0):
     import scipy.sparse
     if kind in ('linear', 'stiff'):
         B = rng.standard_normal((n, n))
         Lm = -(B @ B.T) / n - 0.2 * np.eye(n) + 0.3 * (B - B.T)
         if kind == 'stiff': Lm = Lm * np.diag(10.0 ** rng.uniform(0, 3, n))
-        g = rng.standard_normal(n) * 3
+        g = rng.standard_normal(n) * 3 * scale
+        _problem.last_linear = (Lm, g)
         F = lambda y: Lm @ y + g
         Jd = lambda y: Lm
     else:
@@ -221,9 +222,11 @@ def _step(rec, case, h):
     name = names[case['idx'] % len(names)]
     tau = float(10.0 ** rng.uniform(-3, 0))
     Mop, Md = _mass(rng, n, mkind)
-    F, J, Jd = _problem(rng, n, pkind, sparse_jac=(mkind == 'sparse' and rng.random() < 0.5))
-    x = rng.standard_normal(n)
-    c = dict(case, n=n, mass=mkind, problem=pkind, method=name, tau=tau)
+    # data scale: the property quantifies over every state and right-hand side, not only O(1) ones
+    dscale = float(10.0 ** rng.uniform(-6, 1)) if (pkind != 'nonlinear' and rng.random() < 0.4) else 1.0
+    F, J, Jd = _problem(rng, n, pkind, sparse_jac=(mkind == 'sparse' and rng.random() < 0.5), scale=dscale)
+    x = rng.standard_normal(n) * dscale
+    c = dict(case, n=n, mass=mkind, problem=pkind, method=name, tau=tau, data_scale=dscale)
     rec.case(c, nontrivial=n >= 2)
     sig = {'route': 'step', 'method': name, 'mass': mkind, 'problem': 'nonlinear' if pkind == 'nonlinear' else 'linear'}
     if name in ROS_METHODS:
@@ -275,6 +278,24 @@ def _step(rec, case, h):
         rec.ratio('stage_equations', ri, target)
         if not ri <= target * (1 + 1e-9) + 1e-12 * (np.linalg.norm(Md @ x) + 1):
             rec.violation(dict(sig, oracle='stage equation satisfied to the Newton tolerance'), c, {'stage': i, 'residual': float(ri), 'target': float(target)}); return
+    # linear problems: the stage equations are linear systems, so the step must equal their exact (dense) solution to rounding,
+    # whatever the magnitude of the data; a stage whose Newton solve returned its starting point unchanged was skipped by the
+    # absolute tolerance (part of the signature)
+    if pkind in ('linear', 'stiff'):
+        Lm, g = _problem.last_linear
+        skipped = any(A[i, i] != 0 and np.array_equal(ys[i], x if i == 0 else ys[i - 1]) for i in range(s))
+        yr = []; Fr = []; cmax = 1.0
+        for i in range(s):
+            if A[i, i] == 0: yi = x.copy()
+            else:
+                Ci = Md - tau * A[i, i] * Lm
+                yi = np.linalg.solve(Ci, Md @ x + tau * sum(A[i, j] * Fr[j] for j in range(i)) + tau * A[i, i] * g)
+                cmax = max(cmax, np.linalg.cond(Ci))
+            yr.append(yi); Fr.append(Lm @ yi + g)
+        xr = yr[s - 1] if np.allclose(b, A[s - 1]) else x + tau * np.linalg.solve(Md, sum(b[i] * Fr[i] for i in range(s)))
+        sc_lin = max(np.abs(xr).max(), np.abs(x).max(), tau * max(np.abs(f).max() for f in Fr))
+        rec.check_close('linear_stage_exact', float(np.abs(x_new - xr).max()), float(1e-9 * cmax * np.linalg.cond(Md) * sc_lin * s + 1e-300),
+                        dict(sig, stage_skipped_by_absolute_newton_tolerance=bool(skipped)), c)
     # result from the stage values
     if np.allclose(b, A[s - 1]):
         ref_new = ys[s - 1]
@@ -304,12 +325,14 @@ def _driver(rec, case, h):
     mkind = str(rng.choice(['dense', 'sparse'] if name in ROS_METHODS else ['none', 'dense', 'sparse']))
     pkind = str(rng.choice(['linear', 'stiff', 'nonlinear', 'const']))
     Mop, Md = _mass(rng, n, mkind)
+    dscale = 1.0
     if pkind == 'const':
-        cvec = rng.standard_normal(n)
+        dscale = float(10.0 ** rng.uniform(-6, 1)) if rng.random() < 0.5 else 1.0
+        cvec = rng.standard_normal(n) * dscale
         F = lambda y: cvec.copy(); J = lambda y: np.zeros((n, n)); Jd = J
     else:
         F, J, Jd = _problem(rng, n, pkind)
-    x0 = rng.standard_normal(n)
+    x0 = rng.standard_normal(n) * dscale
     t0 = float(rng.choice([0.0, 0.0, -1.5, 2.25])); T = float(rng.uniform(0.05, 1.5)); t_end = t0 + T
     tau0 = float(T * 10.0 ** rng.uniform(-2, 0.3))
     adaptive = adaptive_capable and rng.random() < 0.7
@@ -318,7 +341,7 @@ def _driver(rec, case, h):
     c = dict(case, method=name, n=n, mass=mkind, problem=pkind, t0=t0, t_end=t_end, tau0=tau0, tol=tol, step_factor=sf)
     sig = {'route': 'driver', 'method': name, 'adaptive': adaptive}
     meth = getattr(solvers, name)
-    h.attempts.clear()
+    h.attempts.clear(); h.newton_log.clear()
     with contextlib.redirect_stdout(io.StringIO()):
         if not adaptive_capable:
             ok, r = guarded(rec, c, sig, meth, Mop, F, J, x0, tau0, t_end, t0=t0)
@@ -367,8 +390,10 @@ def _driver(rec, case, h):
         if pkind == 'const' and not raised:
             ref = x0 + (times[-1] - t0) * np.linalg.solve(Md, cvec)
             nst = len(times) * 6
+            skipped = any(l['result'] is not None and np.array_equal(l['x0'], l['result']) for l in h.newton_log)
             rec.check_close("y'=const exact", float(np.abs(sols[-1] - ref).max()),
-                            (1e-9 * (np.abs(ref).max() + 1) + (0 if name in ROS_METHODS else 1e-4 * nst)) * np.linalg.cond(Md), sig, c)
+                            1e-9 * (np.abs(ref).max() + np.abs(x0).max()) * len(times) * np.linalg.cond(Md) + 1e-300,
+                            dict(sig, stage_skipped_by_absolute_newton_tolerance=bool(skipped)), c)
         return
     # ---- adaptive controller trace
     rec.count('oracle:controller_trace')
@@ -405,8 +430,10 @@ def _driver(rec, case, h):
     if pkind == 'const':
         ref = x0 + (times[-1] - t0) * np.linalg.solve(Md, cvec)
         nst = len(times) * 6
+        skipped = any(l['result'] is not None and np.array_equal(l['x0'], l['result']) for l in h.newton_log)
         rec.check_close("y'=const exact", float(np.abs(sols[-1] - ref).max()),
-                        (1e-9 * (np.abs(ref).max() + 1) * len(times) + (0 if name in ROS_METHODS else 1e-4 * nst)) * np.linalg.cond(Md), sig, c)
+                        1e-9 * (np.abs(ref).max() + np.abs(x0).max()) * len(times) * np.linalg.cond(Md) + 1e-300,
+                        dict(sig, stage_skipped_by_absolute_newton_tolerance=bool(skipped)), c)
 
 def _newton(rec, case, h):
     from pyiga import solvers
